@@ -3,6 +3,8 @@ package main
 import (
 	"encoding/json"
 	"fmt"
+	"github.com/bilibili/gengine/builder"
+	"github.com/bilibili/gengine/context"
 	"strings"
 	"time"
 
@@ -64,6 +66,9 @@ type c11Cfg struct {
 	Model2 string     `json:"model2,omitempty"` // second call on the same engine ("" = none)
 	K2     int64      `json:"k2"`
 	Pool   string     `json:"pool,omitempty"` // pool method: two sequential requests on pool (1,2)
+	// Empty: the second call runs on an EMPTY rule set (engine: a builder without rules; pool: every
+	// rule removed between the two requests): it runs nothing, so its result map must be empty
+	Empty bool `json:"empty,omitempty"`
 }
 
 func c11Text(beh []int) string {
@@ -169,6 +174,11 @@ func c11Scenario(cfg c11Cfg) *hx.Scenario {
 				st.res1Copy = gx.CopyResult(st.res1)
 				if st.pan == nil {
 					vsched.WaitOthersDone() // the instance is handed back asynchronously
+					if cfg.Empty {
+						if err := gp.RemoveRules([]string{"r0", "r1", "r2"}); err != nil {
+							vsched.InternalError("RemoveRules: %v", err)
+						}
+					}
 					st.err2, st.res2, st.pan = gx.PoolCallGuarded(pm, gp, data(cfg.K2, st.inj2), p)
 				}
 				return
@@ -181,7 +191,11 @@ func c11Scenario(cfg c11Cfg) *hx.Scenario {
 			st.res1Copy = gx.CopyResult(st.res1)
 			if cfg.Model2 != "" && st.pan == nil {
 				m2 := gx.ModelByName(cfg.Model2)
-				st.err2, st.pan = gx.CallGuarded(func() error { return m2.Call(g, gx.Fresh(src, nil, data(cfg.K2, st.inj2)), p) })
+				src2 := src
+				if cfg.Empty {
+					src2 = builder.NewRuleBuilder(context.NewDataContext())
+				}
+				st.err2, st.pan = gx.CallGuarded(func() error { return m2.Call(g, gx.Fresh(src2, nil, data(cfg.K2, st.inj2)), p) })
 				st.res2, _ = g.GetRulesResultMap()
 			}
 		},
@@ -217,7 +231,14 @@ func c11Scenario(cfg c11Cfg) *hx.Scenario {
 			if cfg.Pool != "" {
 				second = model1
 			}
-			if second != "" {
+			if second != "" && cfg.Empty {
+				if len(st.res2) != 0 {
+					bad("empty-set-call-keeps-entries", fmt.Sprintf("the second call ran on an empty rule set (nothing ran) but its result map is %v: entries of the earlier call survive", renderRes(st.res2)))
+				}
+				if k, v := mapDiff(st.res1, st.res1Copy); k != "" {
+					bad("first-map-modified", fmt.Sprintf("the result map of the first call was modified by the second call (key %s now %v)", k, v))
+				}
+			} else if second != "" {
 				want2, _ := c11Expect(cfg, second, cfg.K2, st.inj2)
 				if c := sameResult(st.res2, want2); c != "" {
 					bad("second-call", "result map of the second call on the same engine: "+c)
@@ -329,6 +350,24 @@ func c11Configs(thorough bool) (cfgs []c11Cfg, bounds []int) {
 			}
 		}
 	}
+	// second call on an empty rule set, every model (first call: all three rules return)
+	for _, m := range models {
+		cfgs = append(cfgs, c11Cfg{Beh: []int{2, 3, 6}, Model: m.name, B: m.b, N: m.n, M: m.m, Names: m.names, Dag: m.dag, K1: 1, Model2: m.name, K2: 0, Empty: true})
+		bounds = append(bounds, 0)
+		for _, m2 := range []string{"Execute", "ExecuteConcurrent", "ExecuteMixModel"} {
+			if m.n == 0 && m.names == nil && m.dag == nil {
+				cfgs = append(cfgs, c11Cfg{Beh: []int{2, 1, 4}, Model: m.name, B: m.b, K1: 1, Model2: m2, K2: 0, Empty: true})
+				bounds = append(bounds, 0)
+			}
+		}
+	}
+	for _, pm := range gx.PoolMethods {
+		if pm.ReqResp {
+			continue
+		}
+		cfgs = append(cfgs, c11Cfg{Beh: []int{2, 3, 6}, Pool: pm.Name, B: true, N: 1, M: 2, Names: []string{"r2", "r0", "r1"}, Dag: [][]string{{"r0"}, {"r1", "r2"}}, K1: 1, K2: 0, Empty: true})
+		bounds = append(bounds, 0)
+	}
 	// pool: two sequential requests through every execute method
 	for a := 0; a < nb; a++ {
 		for b := 0; b < nb; b++ {
@@ -357,7 +396,7 @@ func init() {
 		BudgetThor:  25 * time.Minute,
 		Kind:        "schedules",
 		Rule: "12 rule behaviours (no return, bare return, return of int/string/injected pointer, return nested in if/for/forRange, return after a failing statement, top-level and nested `return <failing expr>`, data-dependent return-or-fail) -> all 1728 triples x all 21 engine models (x policy, two DAG shapes) [quick: every third], " +
-			"two-call histories on one engine (same / different model, other data valuation) for a subset in which every behaviour pair occurs, concurrent models with several returning rules under every schedule with <=1 preemption, and two sequential requests through every pool execute method; oracle: result map == exactly the rules that the reference says returned in THIS call with their values (pointer identity for injected objects), error iff an executed rule failed, first call's map untouched by the second",
+			"two-call histories on one engine (same / different model, other data valuation) for a subset in which every behaviour pair occurs, concurrent models with several returning rules under every schedule with <=1 preemption, two sequential requests through every pool execute method, and a second call on an EMPTY rule set (builder without rules; pool after removing every rule) in every model / pool method; oracle: result map == exactly the rules that the reference says returned in THIS call with their values (pointer identity for injected objects), error iff an executed rule failed, first call's map untouched by the second",
 		Assume: []string{"strict saliences (the executed set is then schedule independent)"},
 		Run: func(c *hx.Ctx) {
 			cfgs, bounds := c11Configs(c.Thorough())
